@@ -102,8 +102,11 @@ def _shard_worker(pid: str, tier: str, shard: int, seed_base: int) -> dict:
             return
         now = time.monotonic()
         if state["fail_t"] is not None and now - state["fail_t"] > shrink_budget:
-            return  # shrinking budget exhausted: let Hypothesis wind down
-        over_wall = state["fail_t"] is None and now - t0 > wall
+            raise KeyboardInterrupt  # shrinking budget exhausted: the smallest failing case seen so far is kept
+        if state["fail_t"] is None and now - t0 > wall:
+            state["skipped"] += 1
+            raise KeyboardInterrupt  # wall budget hit: stop generating; inconclusive, not a violation
+        over_wall = False
         try:
             case = mod.generate(Draw(data), tier)
         except Exception as e:  # noqa: BLE001
@@ -149,6 +152,8 @@ def _shard_worker(pid: str, tier: str, shard: int, seed_base: int) -> dict:
         runner()
     except Violation:
         pass
+    except KeyboardInterrupt:
+        pass  # raised by test() above to end the run (budget), never by a user here
     except BaseException as e:  # noqa: BLE001  Flaky etc. after the shrink budget ran out
         if state["failure"] is None and state["harness"] is None:
             state["harness"] = "hypothesis raised without a recorded failure:\n" + traceback.format_exc()[:1500]
